@@ -14,7 +14,7 @@ META = {
             "database; H3 nothing reachable from a query or an Analysis method touches fs/env/time/process/thread/rand; H4 every "
             "iteration over a RandomState-hashed collection in query-reachable code feeds only order-insensitive consumers, is "
             "sorted afterwards, or matches a reviewed entry whose consumer signature is unchanged; raw intern ids are used only in "
-            "dependency_order_query; H5 definitions are interned only in module_scope_with_map_query. One obligation per site. H6 no equality reachable from a salsa query value compares an insertion-ordered container (IndexMap/IndexSet) with its order-insensitive ==: salsa back-dates on equality, so dependents would keep the old order. H7 a hand-written PartialEq of a type inside a query value reads every field, none only through keys()/len()/.. .",
+            "dependency_order_query; H5 definitions are interned only in module_scope_with_map_query. One obligation per site. H6 no equality reachable from a salsa query value compares an insertion-ordered container (IndexMap/IndexSet) with its order-insensitive ==: salsa back-dates on equality, so dependents would keep the old order. H7 a hand-written PartialEq of a type inside a query value reads every field, none only through keys()/len()/.. . H8 = C10 Q10: no cycle of the query graph can happen (a fresh host recovers, a host that reaches the same workspace by an edit panics while validating the memo).",
     "explanation": "Decides that every answer is a function of the salsa inputs alone and that no hidden iteration order leaks "
                    "into answers: the necessary structural conditions for history-independence and determinism. Equality of answers "
                    "across histories itself needs executions and is not decided; salsa's incremental correctness is trusted.",
@@ -317,6 +317,9 @@ def run(F, res, tier):
     res.floor("intern calls in module_scope_with_map_query (positive control)",
               sum(1 for x in ic if x[0] == "ide::def::scope::module_scope_with_map_query"), 5)
     value_equality_rules(F, res)
+    # a query cycle that can happen answers by recovery on a fresh host and panics when the same state is reached by an edit
+    from rules import c10 as _c10
+    _c10.cycles_are_cut(F, res, rule="H8")
 
 
 def value_equality_rules(F, res, rule="H6", rule2="H7"):
